@@ -1152,6 +1152,135 @@ def gen_random(ctx):
             mk_bf(ctx, N, fields, ["random", "profile"] + (["builder"] if dflt else []), default=dflt)
 
 
+def rule_valid(N, f):
+    """Property C09's rule set, evaluated on a generated field (independent of the macro and of the Lean model): every range
+    has lo <= hi; the type width equals the number of selected bits (bool: exactly one bit, one range); a stride only on
+    arrays; arrays have >= 2 elements, a stride >= the element width when the element is one range, a mandatory stride when
+    it is a list; every addressed bit lies below the base width."""
+    sp = f["spec"]
+    rs = sp["ranges"]
+    if not rs or any(lo > hi for lo, hi in rs):
+        return False
+    nbits = sum(hi - lo + 1 for lo, hi in rs)
+    if f["kind"] == "bool":
+        if nbits != 1 or len(rs) != 1 or sp["list"]:
+            return False
+    elif nbits != f["width"]:
+        return False
+    top = max(hi for _, hi in rs)
+    if f["count"] is None:
+        if sp["stride"] is not None:
+            return False
+    else:
+        if f["count"] < 2:
+            return False
+        if len(rs) > 1 and sp["stride"] is None:      # a list of one range is a contiguous element
+            return False
+        st = sp["stride"] if sp["stride"] is not None else nbits
+        if len(rs) == 1 and st < nbits:
+            return False
+        top += (f["count"] - 1) * st
+    return top < N
+
+
+def gen_random_verdicts(ctx):
+    """single-field declarations and enums drawn at random and then perturbed in one parameter (position, type width, count,
+    stride, direction of a range, exhaustiveness claim, a discriminant); the expectation is computed from the property's
+    rule text (`rule_valid` / the C10 sentence), not from the macro or the model.  The boundary cases of every rule are in
+    the classes `invalid` / `enums-invalid`; this class looks for accept / reject decisions that go wrong away from them."""
+    rng = ctx.rng
+    n_bf = 150 if ctx.tier != "thorough" else 1500
+    for _ in range(n_bf):
+        N = rng.choice([8, 9, 16, 24, 32, 33, 63, 64, 65, 100, 127, 128, rng.randrange(2, 129)])
+        if rng.random() < 0.2:
+            kind, w = "bool", 1
+        else:
+            w = rng.choice([x for x in (1, 2, 3, 4, 5, 7, 8, 9, 12, 16, 17, 24, 32, 33, 64) if x <= N] + [rng.randrange(1, N + 1)])
+            kind = int_kind(w)
+            if kind == "native" and rng.random() < 0.3:
+                kind = "signed"
+        nparts = 1 if (kind == "bool" or w < 2 or rng.random() < 0.6) else rng.randrange(2, min(w, 4) + 1)
+        lens = split_ranges(rng, w, nparts, None)
+        count = stride = None
+        if rng.random() < 0.5 and 2 * w <= N:
+            count = rng.randrange(2, max(3, min(6, N // w + 1)))
+            room = N // count
+            span = rng.randrange(w, max(w, room) + 1)
+            if span > N:
+                span = w
+            rs = place_disjoint(rng, max(span, w), lens, rng.choice(["asc", "desc", "shuffle"]))
+            stride = max(span, w) + rng.randrange(0, 3)
+            if nparts == 1 and rng.random() < 0.4:
+                stride = None
+        else:
+            rs = place_disjoint(rng, N, lens, rng.choice(["asc", "desc", "shuffle"]))
+        rs = [tuple(r) for r in rs]
+        tw = w
+        mut = rng.choice(["none", "none", "top", "top", "width", "count", "stride", "reverse", "scalar-stride", "shift"])
+        hi = max(b for _, b in rs)
+        if mut == "top":
+            # move the field so that its highest addressed bit is N-2 .. N+1
+            st = stride if stride is not None else w
+            reach = hi + (count - 1) * st if count else hi
+            delta = (N - 1 + rng.choice([-1, 0, 0, 1, 2])) - reach
+            if all(a + delta >= 0 for a, _ in rs):
+                rs = [(a + delta, b + delta) for a, b in rs]
+        elif mut == "width" and kind != "bool":
+            tw = max(1, w + rng.choice([-1, 1]))
+            kind = int_kind(tw) if kind != "signed" else ("signed" if tw in NATIVE else int_kind(tw))
+        elif mut == "count":
+            count = rng.choice([0, 1, (count or 2) + rng.randrange(1, 4)])
+            if stride is None and nparts > 1:
+                stride = w
+        elif mut == "stride" and count:
+            stride = rng.choice([0, max(0, w - 1), w, None, w + 1])
+        elif mut == "reverse" and any(a < b for a, b in rs):
+            k = rng.choice([i for i, (a, b) in enumerate(rs) if a < b])
+            rs[k] = (rs[k][1], rs[k][0])
+        elif mut == "scalar-stride" and not count:
+            stride = rng.choice([w, w + 1, 1])
+        elif mut == "shift":
+            d = rng.randrange(-3, 4)
+            if all(a + d >= 0 for a, _ in rs):
+                rs = [(a + d, b + d) for a, b in rs]
+        f = mk_field("v", kind, tw, rs, access=rng.choice(["rw", "rw", "r", "w"]), count=count, stride=stride,
+                     as_list=(len(rs) > 1) or (kind != "bool" and rng.random() < 0.1), single_bit_form=rng.random() < 0.7,
+                     order=rng.choice(["ras", "ras", "ars", "rsa", "sra", "sar", "asr"]))
+        ok = rule_valid(N, f)
+        mk_bf(ctx, N, [f], ["random-verdict"] + (["valid-boundary"] if ok else ["invalid"]),
+              expect="valid" if ok else "invalid", rule="random (%s)" % mut)
+    n_en = 80 if ctx.tier != "thorough" else 600
+    for _ in range(n_en):
+        n = rng.choice([1, 2, 3, 4, 5, 8, 9, 16, 31, 32, 33, 63, 64, rng.randrange(1, 65)])
+        full = 2 ** n
+        r = rng.random()
+        if n <= 5 and r < 0.35:
+            k = full
+        elif n <= 5 and r < 0.5:
+            k = full - 1
+        else:
+            k = rng.randrange(1, min(full, 9))
+        if k >= full:
+            discrs = list(range(full))
+        else:
+            pool = set()
+            while len(pool) < k:
+                pool.add(rng.choice([0, 1, full - 1, full - 2 if full > 2 else 0, rng.randrange(full)]))
+            discrs = list(pool)
+        rng.shuffle(discrs)
+        too_big = False
+        if n < 64 and rng.random() < 0.15:
+            discrs[rng.randrange(len(discrs))] = full + rng.choice([0, 1, full])
+            too_big = True
+            if len(set(discrs)) != len(discrs):
+                continue
+        exh = rng.choice(["true", "false", None, "conditional"])
+        complete = (len(discrs) == full and not too_big)
+        ok = (not too_big) and ((exh == "true" and complete) or (exh in ("false", None) and not complete) or exh == "conditional")
+        mk_enum(ctx, n, discrs, exh, ["random-verdict"] + (["enums"] if ok else ["enums-invalid"]), sep=rng.choice(["=", ":"]),
+                expect="valid" if ok else "invalid", rule="random enum (%s, %d of 2^%d%s)" % (exh, len(discrs), n, ", discriminant >= 2^N" if too_big else ""))
+
+
 def generate(seed, tier):
     ctx = Ctx(seed, tier)
     gen_kf1(ctx)
@@ -1165,6 +1294,7 @@ def generate(seed, tier):
     gen_multi(ctx)
     gen_mixed(ctx)
     gen_random(ctx)
+    gen_random_verdicts(ctx)
     gen_args(ctx)
     gen_builder(ctx)
     gen_access(ctx)
